@@ -95,6 +95,7 @@ def make_model_class():
                     arr[t] = np.log(self._X[t] * 0.0)   # RuntimeWarning: divide by zero -> -inf
                 else:
                     arr[t] = apply_outcome(float(arr[t]), o, tol)
+            d.setdefault('v_passvals', []).append((t, iteration, {nm: float(d['_' + nm][t]) for nm in ('A', 'B', 'X')}))
 
     return ScriptedModel
 
